@@ -61,6 +61,18 @@ fn name_of(n: usize, shape: &str, flavour: usize) -> Vec<u8> {
             }
             v
         }
+        "dotted" => {
+            let mut v = ascii_name(n, flavour);
+            if n >= 2 {
+                v[n - 1] = b'.';
+                if v[n - 2] == b'.' || v[n - 2] == b'-' {
+                    v[n - 2] = b'x';
+                }
+            }
+            v
+        }
+        "dotdigits" => (0..n).map(|i| if i % 4 == 3 { b'.' } else { b'0' + ((i + flavour) % 10) as u8 }).collect(),
+        "upper" => ascii_name(n, flavour).iter().map(|b| b.to_ascii_uppercase()).collect(),
         _ => ascii_name(n, flavour),
     }
 }
